@@ -414,18 +414,13 @@ end SkVerif.C16
 
 namespace SkVerif.C16
 
-/-! ## Cells read by label; integer-typed cells (known findings) -/
+/-! ## Cells read by position (repaired by /repo 54be566); integer-typed cells (repaired by 5cad45f) -/
 
-/- FULL STATEMENT (container invariance of DerivativeSlopeTransformer; NOT provable for the code as it is):
-     ∀ labels vals, labels.length = vals.length → getDerByLabel labels vals = getDerByPosition vals
-   `get_der(x)` reads `x[i]` on the cell Series, i.e. by LABEL: cells that do not carry the default 0..n-1
-   time index raise KeyError (or, for other origins, read shifted values), while the 3-D array of the same
-   numbers is converted to default-indexed cells first. -/
-
-/-- with the default time index reading by label is reading by position -/
-theorem getDer_default_index_partial (vals : List Rat) :
-    getDerByLabel (labelsFrom 0 vals.length) vals = getDerByPosition vals := by
-  unfold getDerByLabel getDerByPosition
+/-- Container invariance of DerivativeSlopeTransformer, full strength: whatever time index the cell Series
+carries, the derivative is the positional formula a 3-D array of the same numbers gets. -/
+theorem getDer_index_invariant (labels : List Int) (vals : List Rat) :
+    getDer labels vals = getDerByPosition vals := by
+  unfold getDer getDerByLabel getDerByPosition
   have : (fun (k : Nat) => derAt (lookupCell (labelsFrom 0 vals.length) vals) (Int.ofNat k + 1))
        = (fun (k : Nat) => derAt (cellAt vals) (Int.ofNat k + 1)) := by
     funext k
@@ -434,35 +429,23 @@ theorem getDer_default_index_partial (vals : List Rat) :
   rw [this]
 
 example : labelsFrom 0 4 = [0, 1, 2, 3] := by decide
+example : (getDer [1, 2, 3, 4] [1, 2, 4, 8]).toBool = true := rfl
 
-/-- NEGATION at a witness: the same four numbers in cells labelled 1..4 are rejected (KeyError) -/
-theorem getDer_label_origin_witness :
-    getDerByLabel [1, 2, 3, 4] [1, 2, 4, 8] = .error .key ∧ (getDerByPosition [1, 2, 4, 8]).toBool = true := by
+/-- about the ORIGINAL code (before 54be566, the record of the finding): the same four numbers in cells
+labelled 1..4 were rejected with KeyError -/
+example : getDerByLabel [1, 2, 3, 4] [1, 2, 4, 8] = .error .key ∧ (getDerByPosition [1, 2, 4, 8]).toBool = true := by
   constructor <;> rfl
 
-/- FULL STATEMENT (a series is the same series whatever dtype stores its whole numbers; NOT provable):
-     ∀ ys, meanAsStored true ys = meanAsStored false ys
-   `SlopeTransformer._get_gradient` takes `statistics.mean(Y)`, which converts the exact mean back to the
-   type of the data; for numpy integers that truncates. -/
+/-- A series is the same series whatever dtype stores its whole numbers, full strength: the mean
+SlopeTransformer works with is the exact mean for integer-typed and float-typed cells alike. -/
+theorem slopeMean_dtype_invariant (ys : List Rat) :
+    slopeMean true ys = slopeMean false ys ∧ slopeMean true ys = ys.sum / (ys.length : Rat) :=
+  ⟨rfl, rfl⟩
 
-/-- float-typed cells get the exact mean; integer-typed cells too when the mean is whole -/
-theorem meanAsStored_partial (ys : List Rat) :
-    meanAsStored false ys = ys.sum / (ys.length : Rat) ∧
-    (∀ z : Int, ys.sum / (ys.length : Rat) = (z : Rat) → meanAsStored true ys = meanAsStored false ys) := by
-  refine ⟨rfl, ?_⟩
-  intro z hz
-  unfold meanAsStored
-  simp only [hz, if_true, Bool.false_eq_true, if_false]
-  by_cases h : (z : Rat) < 0
-  · simp only [h, if_true]
-    have : (-(z : Rat)).floor = -z := by
-      rw [← Rat.intCast_neg]; exact Rat.floor_intCast (-z)
-    rw [this]; simp
-  · simp only [h, if_false]
-    rw [Rat.floor_intCast]
+example : slopeMean true [1, 2] = 3 / 2 := by decide +kernel
 
-/-- NEGATION at a witness: the instance (1, 2) stored as integers has "mean" 1, stored as floats 3/2 -/
-theorem meanAsStored_int_witness : meanAsStored true [1, 2] ≠ meanAsStored false [1, 2] := by
-  decide +kernel
+/-- about `statistics.mean` itself (what the ORIGINAL `_get_gradient`, before 5cad45f, called on the raw
+cells): the instance (1, 2) stored as integers has "mean" 1, stored as floats 3/2 -/
+example : meanAsStored true [1, 2] ≠ meanAsStored false [1, 2] := by decide +kernel
 
 end SkVerif.C16
